@@ -72,6 +72,8 @@ class Guard:
             raise Discard("illcond:small_denominator")
         if getattr(I, "cond_margin", math.inf) < self.cond_margin:
             raise Discard("illcond:conditional_switch")
+        if getattr(I, "max_inter", 0.0) > self.max_abs:
+            raise Discard("illcond:huge_intermediate")
         if getattr(I, "max_fn_arg", 0.0) > 1e4:
             raise Discard("illcond:large_function_argument")
         if getattr(I, "max_cond", 0.0) > 1e5:
